@@ -101,7 +101,8 @@ def run_route(tensors, legs, route, pretrans=None, scalar_last=False):
         for (t, l), p in zip(cur, pretrans):
             if p is not None and t.ndim == len(p):
                 # (every other tensor is reversed with the *default* axes argument, the rest with explicit axes)
-                t = t.transpose(None) if (len(new) % 2 == 0) else t.transpose(p)
+                # (... spelled with a mix of negative and non-negative axis numbers: the same permutation)
+                t = t.transpose(None) if (len(new) % 2 == 0) else t.transpose(tuple((a - t.ndim) if k % 2 == 0 else a for k, a in enumerate(p)))
                 l = [l[a] for a in p]
             new.append((t, l))
         cur = new
